@@ -98,69 +98,71 @@ def leftBare (o : PBin) (l : Ast) : Bool :=
   decide (o.level ≤ l.level) && !(o == .pow && l.endsBare)
 
 mutual
-/-- Text of `t` itself (no outer parentheses).  `full = true`: every sub-expression is
-    parenthesised; `full = false`: only where the rules require it. -/
-def rNat (full : Bool) : Ast → List PTok
+/-- Text of `t` itself (no outer parentheses).  `full x = true`: every occurrence of the
+    sub-expression `x` is parenthesised even where the rules do not require it; with
+    `full = fun _ => false` only the required parentheses are written, with `fun _ => true`
+    every sub-expression is parenthesised. -/
+def rNat (full : Ast → Bool) : Ast → List PTok
   | .num v => [.num v]
   | .str s => [.str s]
   | .inst s => [.inst s]
   | .var n => [.var n]
   | .bin o l r =>
-      wrap (!full && leftBare o l) (rNat full l)
-        ++ .op o :: wrap (!full && decide (o.level + 1 ≤ r.level)) (rNat full r)
-  | .sign neg x => .op (if neg then .sub else .add) :: wrap (!full && decide (9 ≤ x.level)) (rNat full x)
-  | .fact x => wrap (!full && decide (10 ≤ x.level)) (rNat full x) ++ [.p .bang]
+      wrap (!full l && leftBare o l) (rNat full l)
+        ++ .op o :: wrap (!full r && decide (o.level + 1 ≤ r.level)) (rNat full r)
+  | .sign neg x => .op (if neg then .sub else .add) :: wrap (!full x && decide (9 ≤ x.level)) (rNat full x)
+  | .fact x => wrap (!full x && decide (10 ≤ x.level)) (rNat full x) ++ [.p .bang]
   | .range lo hi =>
-      wrap (!full && decide (7 ≤ lo.level)) (rNat full lo)
-        ++ .p .dots :: wrap (!full && decide (7 ≤ hi.level)) (rNat full hi)
+      wrap (!full lo && decide (7 ≤ lo.level)) (rNat full lo)
+        ++ .p .dots :: wrap (!full hi && decide (7 ≤ hi.level)) (rNat full hi)
   | .interval lo hi =>
-      .p .lbrack :: wrap (!full) (rNat full lo) ++ .p .comma :: wrap (!full) (rNat full hi) ++ [.p .rbrack]
+      .p .lbrack :: wrap (!full lo) (rNat full lo) ++ .p .comma :: wrap (!full hi) (rNat full hi) ++ [.p .rbrack]
   | .cmp1 o a b =>
-      wrap (!full && decide (2 ≤ a.level)) (rNat full a)
-        ++ .cmp o :: wrap (!full && decide (2 ≤ b.level)) (rNat full b)
+      wrap (!full a && decide (2 ≤ a.level)) (rNat full a)
+        ++ .cmp o :: wrap (!full b && decide (2 ≤ b.level)) (rNat full b)
   | .cmp2 o1 o2 a b c =>
-      wrap (!full && decide (2 ≤ a.level)) (rNat full a)
-        ++ .cmp o1 :: wrap (!full && decide (2 ≤ b.level)) (rNat full b)
-        ++ .cmp o2 :: wrap (!full && decide (2 ≤ c.level)) (rNat full c)
+      wrap (!full a && decide (2 ≤ a.level)) (rNat full a)
+        ++ .cmp o1 :: wrap (!full b && decide (2 ≤ b.level)) (rNat full b)
+        ++ .cmp o2 :: wrap (!full c && decide (2 ≤ c.level)) (rNat full c)
   | .call name args kws =>
       .var name :: .p .lpar :: (rTail full args ++ rKwTail full kws).drop 1 ++ [.p .rpar]
-  | .quantity x s => wrap (!full && decide (8 ≤ x.level)) (rNat full x) ++ rSig s
-  | .convert e s => wrap (!full && decide (1 ≤ e.level)) (rNat full e) ++ .p .to :: rSig s
+  | .quantity x s => wrap (!full x && decide (8 ≤ x.level)) (rNat full x) ++ rSig s
+  | .convert e s => wrap (!full e && decide (1 ≤ e.level)) (rNat full e) ++ .p .to :: rSig s
   | .array xs => .p .lbrace :: (rTail full xs).drop 1 ++ [.p .rbrace]
   | .compr body gens conds =>
-      .p .lbrace :: wrap (!full) (rNat full body)
+      .p .lbrace :: wrap (!full body) (rNat full body)
         ++ .p .colon :: (rGenTail full gens ++ rCondTail full conds).drop 1 ++ [.p .rbrace]
-  | .assign n e => .var n :: .cmp .asg :: wrap (!full) (rNat full e)
+  | .assign n e => .var n :: .cmp .asg :: wrap (!full e) (rNat full e)
   | .stmts ss => (rStmtTail full ss).drop 1
 /-- `, e` for every element. -/
-def rTail (full : Bool) : List Ast → List PTok
+def rTail (full : Ast → Bool) : List Ast → List PTok
   | [] => []
-  | x :: xs => .p .comma :: wrap (!full) (rNat full x) ++ rTail full xs
+  | x :: xs => .p .comma :: wrap (!full x) (rNat full x) ++ rTail full xs
 /-- `, name : e` for every keyword argument. -/
-def rKwTail (full : Bool) : List (String × Ast) → List PTok
+def rKwTail (full : Ast → Bool) : List (String × Ast) → List PTok
   | [] => []
-  | (n, x) :: xs => .p .comma :: .var n :: .p .colon :: wrap (!full) (rNat full x) ++ rKwTail full xs
+  | (n, x) :: xs => .p .comma :: .var n :: .p .colon :: wrap (!full x) (rNat full x) ++ rKwTail full xs
 /-- `, name in e` for every generator. -/
-def rGenTail (full : Bool) : List (String × Ast) → List PTok
+def rGenTail (full : Ast → Bool) : List (String × Ast) → List PTok
   | [] => []
-  | (n, x) :: xs => .p .comma :: .var n :: .cmp .elem :: wrap (!full) (rNat full x) ++ rGenTail full xs
+  | (n, x) :: xs => .p .comma :: .var n :: .cmp .elem :: wrap (!full x) (rNat full x) ++ rGenTail full xs
 /-- `, e` for every condition; a condition whose text would begin `name in` is parenthesised. -/
-def rCondTail (full : Bool) : List Ast → List PTok
+def rCondTail (full : Ast → Bool) : List Ast → List PTok
   | [] => []
   | x :: xs =>
-      .p .comma :: wrap (!full && !startsGen (rNat full x)) (rNat full x) ++ rCondTail full xs
+      .p .comma :: wrap (!full x && !startsGen (rNat full x)) (rNat full x) ++ rCondTail full xs
 /-- `; statement` for every statement; an expression statement whose text would begin `name =`
     is parenthesised. -/
-def rStmtTail (full : Bool) : List Ast → List PTok
+def rStmtTail (full : Ast → Bool) : List Ast → List PTok
   | [] => []
-  | .assign n e :: xs => .p .semi :: .var n :: .cmp .asg :: wrap (!full) (rNat full e) ++ rStmtTail full xs
+  | .assign n e :: xs => .p .semi :: .var n :: .cmp .asg :: wrap (!full e) (rNat full e) ++ rStmtTail full xs
   | x :: xs =>
-      .p .semi :: wrap (!full && !startsAsg (rNat full x)) (rNat full x) ++ rStmtTail full xs
+      .p .semi :: wrap (!full x && !startsAsg (rNat full x)) (rNat full x) ++ rStmtTail full xs
 end
 
 /-- `t` written as an operand of binding level `ℓ`. -/
-def rAt (full : Bool) (ℓ : Nat) (t : Ast) : List PTok :=
-  wrap (!full && decide (ℓ ≤ t.level)) (rNat full t)
+def rAt (full : Ast → Bool) (ℓ : Nat) (t : Ast) : List PTok :=
+  wrap (!full t && decide (ℓ ≤ t.level)) (rNat full t)
 
 /-! ### well-formed trees = the trees the grammar produces -/
 
@@ -221,10 +223,22 @@ instance : DecidablePred Ast.WF := fun t =>
 
 def toTokens (ts : List PTok) : List Token := ts.map PTok.toToken
 
+/-- no redundant parentheses -/
+def noExtra : Ast → Bool := fun _ => false
+/-- parentheses around every sub-expression -/
+def allExtra : Ast → Bool := fun _ => true
+
+@[simp] theorem noExtra_apply (t : Ast) : noExtra t = false := rfl
+@[simp] theorem allExtra_apply (t : Ast) : allExtra t = true := rfl
+
+/-- Text of a program tree with the required parentheses plus redundant ones around every
+    occurrence of a sub-expression selected by `extra`. -/
+def renderWith (extra : Ast → Bool) (t : Ast) : List Token := toTokens (rNat extra t)
+
 /-- Minimal-parentheses text of a program tree, as tokens. -/
-def renderMin (t : Ast) : List Token := toTokens (rNat false t)
+def renderMin (t : Ast) : List Token := renderWith noExtra t
 
 /-- Fully parenthesised text of a program tree, as tokens. -/
-def renderFull (t : Ast) : List Token := toTokens (rNat true t)
+def renderFull (t : Ast) : List Token := renderWith allExtra t
 
 end KaVerif.Parser
